@@ -127,6 +127,64 @@ theorem Request.encode_eq (r : Request) (buf : Bytes) (h : r.Encodable) :
     | reportServerId => simp [Request.Encodable] at h
 
 
+theorem Res.bind_const_err_ne_ok {α β} (x : Res α) (e : Error) (v : β) :
+    x.bind (fun _ => (Res.err e : Res β)) ≠ .ok v := by
+  cases x <;> simp
+
+theorem Res.bind_const_panic_ne_ok {α β} (x : Res α) (v : β) :
+    x.bind (fun _ => (Res.panic : Res β)) ≠ .ok v := by
+  cases x <;> simp
+
+/-- a request that `encode` serialises successfully is `Encodable` -/
+theorem Request.encodable_of_ok (r : Request) (buf : Bytes) (v : Nat × Bytes)
+    (h : r.encode buf = .ok v) : r.Encodable := by
+  cases r with
+  | writeMultipleCoils a c =>
+    by_cases h1 : c.packedLen ≤ 255
+    · by_cases h2 : c.packedLen ≤ c.data.length
+      · exact ⟨h1, h2⟩
+      · exfalso
+        have hc : c.data.length < c.packedLen := by omega
+        simp only [Request.encode, Request.pduLen, Res.bind'_ok, u8TryFrom_ok h1, Coils.copyBytes, hc, if_true] at h
+        split at h
+        · simp at h
+        · cases hh : applyWrites buf [(0, [(Request.writeMultipleCoils a c).fc.value]), (1, be16 a)] with
+          | ok b =>
+            rw [hh] at h; simp only [Res.bind'_ok] at h
+            exact Res.bind_const_panic_ne_ok _ _ h
+          | err e => rw [hh] at h; simp at h
+          | panic => rw [hh] at h; simp at h
+    · exfalso
+      have hu : u8TryFrom c.packedLen = .err .bufferSize := by simp [u8TryFrom, h1]
+      simp only [Request.encode, Request.pduLen, Res.bind'_ok, hu, Res.bind'_err] at h
+      split at h
+      · simp at h
+      · exact Res.bind_const_err_ne_ok _ _ _ h
+  | writeMultipleRegisters a d =>
+    by_cases h1 : d.len * 2 ≤ 255
+    · exact h1
+    · exfalso
+      have hu : u8TryFrom (d.len * 2) = .err .bufferSize := by simp [u8TryFrom, h1]
+      simp only [Request.encode, Request.pduLen, Res.bind'_ok, hu, Res.bind'_err] at h
+      split at h
+      · simp at h
+      · exact Res.bind_const_err_ne_ok _ _ _ h
+  | readWriteMultipleRegisters ra q wa d =>
+    by_cases h1 : d.len * 2 ≤ 255
+    · exact h1
+    · exfalso
+      have hu : u8TryFrom (d.len * 2) = .err .bufferSize := by simp [u8TryFrom, h1]
+      simp only [Request.encode, Request.pduLen, Res.bind'_ok, hu, Res.bind'_err] at h
+      split at h
+      · simp at h
+      · exact Res.bind_const_err_ne_ok _ _ _ h
+  | readExceptionStatus => simp [Request.encode, Request.pduLen] at h
+  | diagnostics s d => simp [Request.encode, Request.pduLen] at h
+  | getCommEventCounter => simp [Request.encode, Request.pduLen] at h
+  | getCommEventLog => simp [Request.encode, Request.pduLen] at h
+  | reportServerId => simp [Request.encode, Request.pduLen] at h
+  | _ => trivial
+
 /-! ### responses -/
 
 def Response.image : Response → Bytes
@@ -219,6 +277,71 @@ theorem Response.encode_eq (r : Response) (buf : Bytes) (h : r.Encodable) :
     | getCommEventCounter a b => simp [Response.Encodable] at h
     | getCommEventLog a b c d => simp [Response.Encodable] at h
     | reportServerId a b => simp [Response.Encodable] at h
+
+/-- a response that `encode` serialises successfully is `Encodable` -/
+theorem Response.encodable_of_ok (r : Response) (buf : Bytes) (v : Nat × Bytes)
+    (h : r.encode buf = .ok v) : r.Encodable := by
+  have coils : ∀ (c : Coils) (fc : UInt8) (n : Nat),
+      ((if buf.length < n then (Res.err Error.bufferSize : Res (Nat × Bytes)) else
+        (applyWrites buf [(0, [fc])]).bind fun buf =>
+        (u8TryFrom c.packedLen).bind fun bc =>
+        (applyWrites buf [(1, [bc])]).bind fun buf =>
+        c.copyBytes.bind fun payload =>
+        finish n (applyWrites buf [(2, payload)])) = .ok v) →
+      c.packedLen ≤ 255 ∧ c.packedLen ≤ c.data.length := by
+    intro c fc n h
+    split at h
+    · simp at h
+    · by_cases h1 : c.packedLen ≤ 255
+      · by_cases h2 : c.packedLen ≤ c.data.length
+        · exact ⟨h1, h2⟩
+        · exfalso
+          have hc : c.data.length < c.packedLen := by omega
+          simp only [u8TryFrom_ok h1, Res.bind'_ok, Coils.copyBytes, hc, if_true, Res.bind'_panic] at h
+          cases hh : applyWrites buf [(0, [fc])] with
+          | ok b => rw [hh] at h; simp only [Res.bind'_ok] at h; exact Res.bind_const_panic_ne_ok _ _ h
+          | err e => rw [hh] at h; simp at h
+          | panic => rw [hh] at h; simp at h
+      · exfalso
+        have hu : u8TryFrom c.packedLen = .err .bufferSize := by simp [u8TryFrom, h1]
+        simp only [hu, Res.bind'_err] at h
+        exact Res.bind_const_err_ne_ok _ _ _ h
+  have regs : ∀ (d : Data) (fc : UInt8) (n : Nat),
+      ((if buf.length < n then (Res.err Error.bufferSize : Res (Nat × Bytes)) else
+        (applyWrites buf [(0, [fc])]).bind fun buf =>
+        (u8TryFrom (d.len * 2)).bind fun bc =>
+        (applyWrites buf [(1, [bc])]).bind fun buf =>
+        d.copyBytes.bind fun payload =>
+        finish n (applyWrites buf [(2, payload)])) = .ok v) →
+      d.len * 2 ≤ 255 ∧ d.len * 2 ≤ d.data.length := by
+    intro d fc n h
+    split at h
+    · simp at h
+    · by_cases h1 : d.len * 2 ≤ 255
+      · by_cases h2 : d.len * 2 ≤ d.data.length
+        · exact ⟨h1, h2⟩
+        · exfalso
+          have hc : d.data.length < d.quantity * 2 := by simp only [Data.len] at h2; omega
+          simp only [u8TryFrom_ok h1, Res.bind'_ok, Data.copyBytes, hc, if_true, Res.bind'_panic] at h
+          cases hh : applyWrites buf [(0, [fc])] with
+          | ok b => rw [hh] at h; simp only [Res.bind'_ok] at h; exact Res.bind_const_panic_ne_ok _ _ h
+          | err e => rw [hh] at h; simp at h
+          | panic => rw [hh] at h; simp at h
+      · exfalso
+        have hu : u8TryFrom (d.len * 2) = .err .bufferSize := by simp [u8TryFrom, h1]
+        simp only [hu, Res.bind'_err] at h
+        exact Res.bind_const_err_ne_ok _ _ _ h
+  cases r with
+  | readCoils c => exact coils c _ _ (by simpa [Response.encode, Response.pduLen] using h)
+  | readDiscreteInputs c => exact coils c _ _ (by simpa [Response.encode, Response.pduLen] using h)
+  | readInputRegisters d => exact regs d _ _ (by simpa [Response.encode, Response.pduLen] using h)
+  | readHoldingRegisters d => exact regs d _ _ (by simpa [Response.encode, Response.pduLen] using h)
+  | readWriteMultipleRegisters d => exact regs d _ _ (by simpa [Response.encode, Response.pduLen] using h)
+  | diagnostics d => simp [Response.encode, Response.pduLen] at h
+  | getCommEventCounter a b => simp [Response.encode, Response.pduLen] at h
+  | getCommEventLog a b c d => simp [Response.encode, Response.pduLen] at h
+  | reportServerId a b => simp [Response.encode, Response.pduLen] at h
+  | _ => trivial
 
 /-! ### exception responses and `ResponsePdu` -/
 
